@@ -157,6 +157,35 @@ Proof. induction l as [|x l IH]; simpl; [reflexivity|]. destruct (p (f x)); simp
 Lemma list_times_single {A} (x : A) n : list_times [x] n = repeat x n.
 Proof. induction n as [|n IH]; simpl; [reflexivity|]. rewrite IH. reflexivity. Qed.
 
+Lemma firstn_incl {A} n (l : list A) : incl (firstn n l) l.
+Proof. intros x H. rewrite <- (firstn_skipn n l). apply in_or_app. left. exact H. Qed.
+
+Lemma firstn_NoDup_map {A B} (f : A -> B) n (l : list A) : NoDup (map f l) -> NoDup (map f (firstn n l)).
+Proof.
+  intros H. rewrite <- (firstn_skipn n l), map_app in H. eapply NoDup_app_l, H.
+Qed.
+
+Lemma NoDup_app_intro {A} (a b : list A) :
+  NoDup a -> NoDup b -> (forall x, In x a -> ~ In x b) -> NoDup (a ++ b).
+Proof.
+  induction a as [|x a IH]; simpl; intros Ha Hb D; [exact Hb|].
+  inversion Ha as [|? ? Hn Ha']; subst. constructor.
+  - intros H. apply in_app_or in H as [H|H]; [apply Hn, H|]. apply (D x); auto.
+  - apply IH; auto.
+Qed.
+
+Lemma filter_length_split {A} (p : A -> bool) l :
+  length (filter p l) + length (filter (fun x => negb (p x)) l) = length l.
+Proof. pose proof (Permutation_length (filter_partition_perm p l)) as H. rewrite app_length in H. exact H. Qed.
+
+Lemma filter_NoDup_map {A B} (f : A -> B) (p : A -> bool) l : NoDup (map f l) -> NoDup (map f (filter p l)).
+Proof.
+  induction l as [|x l IH]; simpl; intros H; [constructor|].
+  inversion H as [|? ? Hn H']; subst. destruct (p x); simpl; [|apply IH, H'].
+  constructor; [|apply IH, H']. intros Hx. apply Hn.
+  apply in_map_iff in Hx as [y [E Hy]]. apply filter_In in Hy as [Hy _]. rewrite <- E. apply in_map, Hy.
+Qed.
+
 (* ------------------------------------------------------------------ uid dictionary *)
 Lemma same_uid_iff a b : same_uid a b = true <-> uid a = uid b.
 Proof. unfold same_uid. apply Nat.eqb_eq. Qed.
@@ -857,4 +886,267 @@ Proof.
   rewrite (filter_all_true _ (g1 ++ g2)).
   - rewrite Eg, !app_length. simpl. lia.
   - intros x Hx. apply negb_true_iff, Hbest. rewrite Eg. apply in_app_or in Hx as [Hx|Hx]; apply in_or_app; [left|right; right]; exact Hx.
+Qed.
+
+(* ------------------------------------------------------------------ SPEA-2: admitted outputs *)
+Lemma inds_eqb_In_r l r x : inds_eqb l r = true -> In x r -> exists y, In y l /\ ind_eqb y x = true.
+Proof.
+  unfold inds_eqb. revert r; induction l as [|a l IH]; intros [|b r]; simpl; try discriminate; [intros _ []|].
+  intros H [<-|Hx]; apply andb_true_iff in H as [H1 H2].
+  - exists a. auto.
+  - destruct (IH r H2 Hx) as (y & Hy & E). exists y. auto.
+Qed.
+
+Lemma mem_uid_of_eqb x y l : In y l -> ind_eqb y x = true -> mem_uid x l = true.
+Proof.
+  intros Hy E. apply mem_uid_iff. apply ind_eqb_uid in E. rewrite <- E. apply in_map, Hy.
+Qed.
+
+(* an output accepted by the SPEA-2 relation contains every non-dominated individual whenever
+   the non-dominated ones all fit *)
+Theorem spea2_admits_keeps_front dm inds pop_size out x :
+  asym dm -> spea2_admits dm inds pop_size out = true ->
+  length (filter (nondominated dm inds) inds) <= pop_size ->
+  In x inds -> nondominated dm inds x = true -> mem_uid x out = true.
+Proof.
+  intros A H Hn Hx Hnd. unfold spea2_admits in H.
+  set (ks := keyed dm inds) in *. set (front := map (fun kp => snd (snd kp)) (filter is_front ks)) in *.
+  assert (Ln : length front = length (filter (nondominated dm inds) inds)).
+  { subst front. rewrite map_length. apply front_count, A. }
+  assert (Hf : In x front).
+  { rewrite <- (keyed_proj dm inds) in Hx. apply in_map_iff in Hx as [kp [E Hk]].
+    subst front. rewrite <- E. apply (in_map (fun kp => snd (snd kp))). apply filter_In. split; [exact Hk|].
+    apply (front_iff_nondominated dm inds kp A Hk). rewrite E. exact Hnd. }
+  destruct (length front <? pop_size) eqn:E1.
+  - repeat (apply andb_true_iff in H as [H _]).
+    destruct (inds_eqb_In_r _ _ x H Hf) as (y & Hy & E). eapply mem_uid_of_eqb; [eapply firstn_sub, Hy|exact E].
+  - destruct (pop_size <? length front) eqn:E2; [apply Nat.ltb_lt in E2; lia|].
+    destruct (inds_eqb_In_r _ _ x H Hf) as (y & Hy & E). eapply mem_uid_of_eqb; eauto.
+Qed.
+
+Lemma optQ_eqb_sym a b : optQ_eqb a b = optQ_eqb b a.
+Proof. destruct a, b; simpl; try reflexivity. apply Qeq_bool_sym. Qed.
+Lemma fit_eqb_sym f g : fit_eqb f g = fit_eqb g f.
+Proof.
+  destruct f, g; simpl; try reflexivity.
+  - rewrite optQ_eqb_sym, identical_sym. reflexivity.
+  - rewrite (identical_sym values), (identical_sym weights). reflexivity.
+Qed.
+Lemma ind_eqb_sym x y : ind_eqb x y = ind_eqb y x.
+Proof. unfold ind_eqb, same_uid. rewrite Nat.eqb_sym, fit_eqb_sym. reflexivity. Qed.
+
+Lemma inds_eqb_uids l r : inds_eqb l r = true -> map uid l = map uid r.
+Proof.
+  unfold inds_eqb. revert r; induction l as [|a l IH]; intros [|b r]; simpl; try discriminate; [reflexivity|].
+  intros H. apply andb_true_iff in H as [H1 H2]. rewrite (ind_eqb_uid _ _ H1), (IH _ H2). reflexivity.
+Qed.
+Lemma inds_eqb_In_l l r x : inds_eqb l r = true -> In x l -> exists y, In y r /\ ind_eqb x y = true.
+Proof.
+  unfold inds_eqb. revert r; induction l as [|a l IH]; intros [|b r]; simpl; try discriminate; [intros _ []|].
+  intros H [<-|Hx]; apply andb_true_iff in H as [H1 H2].
+  - exists b. auto.
+  - destruct (IH r H2 Hx) as (y & Hy & E). exists y. auto.
+Qed.
+
+Lemma subseq_b_spec l : forall s, subseq_b s l = true ->
+  (forall x, In x s -> exists y, In y l /\ ind_eqb x y = true) /\
+  (NoDup (map uid l) -> NoDup (map uid s) /\ forall u, In u (map uid s) -> In u (map uid l)).
+Proof.
+  induction l as [|y l IH]; intros [|x s]; simpl; try discriminate; intros H.
+  - split; [intros _ []|intros _; split; [constructor|intros _ []]].
+  - split; [intros _ []|intros _; split; [constructor|intros _ []]].
+  - destruct (ind_eqb x y) eqn:E.
+    + destruct (IH s H) as [I1 I2]. split.
+      * intros z [<-|Hz]; [exists y; auto|]. destruct (I1 z Hz) as (w & Hw & Ew). exists w. auto.
+      * intros ND. inversion ND as [|? ? Hn ND']; subst. destruct (I2 ND') as [N1 N2]. simpl.
+        rewrite (ind_eqb_uid _ _ E). split.
+        -- constructor; [intros C; apply Hn, N2, C|exact N1].
+        -- intros u [<-|Hu]; [left; reflexivity|right; apply N2, Hu].
+    + destruct (IH (x :: s) H) as [I1 I2]. split.
+      * intros z Hz. destruct (I1 z Hz) as (w & Hw & Ew). exists w. auto.
+      * intros ND. inversion ND as [|? ? Hn ND']; subst. destruct (I2 ND') as [N1 N2].
+        split; [exact N1|]. intros u Hu. right. apply N2, Hu.
+Qed.
+
+(* an output accepted by the SPEA-2 relation is drawn from the individuals, repeat-free and
+   of the requested size *)
+Theorem spea2_admits_contract dm inds pop_size out :
+  NoDup (map uid inds) -> spea2_admits dm inds pop_size out = true ->
+  subset_b out inds = true /\ NoDup (map uid out) /\ length out = pop_size.
+Proof.
+  intros ND H. unfold spea2_admits in H.
+  set (ks := keyed dm inds) in *.
+  set (chosen := filter is_front ks) in *. set (rest := filter (fun kp => negb (is_front kp)) ks) in *.
+  set (front := map (fun kp => snd (snd kp)) chosen) in *.
+  assert (NDk : NoDup (map (fun kp => uid (proj kp)) ks)).
+  { rewrite <- (map_map proj uid). unfold ks. rewrite keyed_proj. exact ND. }
+  assert (Fi : incl front inds).
+  { intros x Hx. subst front. apply in_map_iff in Hx as [kp [<- Hk]]. apply filter_In in Hk as [Hk _].
+    rewrite <- (keyed_proj dm inds). apply (in_map proj), Hk. }
+  assert (NDf : NoDup (map uid front)).
+  { subst front. rewrite map_map. apply (filter_NoDup_map (fun kp => uid (proj kp))). exact NDk. }
+  destruct (length front <? pop_size) eqn:E1.
+  - apply Nat.ltb_lt in E1.
+    apply andb_true_iff in H as [H _]. apply andb_true_iff in H as [H _].
+    apply andb_true_iff in H as [H A4]. apply andb_true_iff in H as [H A3].
+    apply andb_true_iff in H as [A1 A2]. apply Nat.eqb_eq in A2.
+    set (n := length front) in *. set (fill := skipn n out) in *.
+    assert (Lh : length (firstn n out) = n).
+    { pose proof (f_equal (@length nat) (inds_eqb_uids _ _ A1)) as L. rewrite !map_length in L. exact L. }
+    assert (Ffill : forall x, In x fill -> exists kp, In kp rest /\ ind_eqb (proj kp) x = true).
+    { intros x Hx. rewrite forallb_forall in A3. specialize (A3 x Hx). unfold raw_of in A3.
+      destruct (find (fun kp => ind_eqb (snd (snd kp)) x) rest) as [kp|] eqn:Ef; [|discriminate].
+      apply find_some in Ef as [Hk Ek]. exists kp. auto. }
+    split; [|split].
+    + apply subset_b_iff. intros x Hx. rewrite <- (firstn_skipn n out) in Hx. apply in_app_or in Hx as [Hx|Hx].
+      * destruct (inds_eqb_In_l _ _ x A1 Hx) as (y & Hy & E). exists y. split; [apply Fi, Hy|exact E].
+      * destruct (Ffill x Hx) as (kp & Hk & E). exists (proj kp). split.
+        -- subst rest. apply filter_In in Hk as [Hk _]. rewrite <- (keyed_proj dm inds). apply (in_map proj), Hk.
+        -- rewrite ind_eqb_sym. exact E.
+    + rewrite <- (firstn_skipn n out), map_app, (inds_eqb_uids _ _ A1). apply NoDup_app_intro.
+      * exact NDf.
+      * apply nodup_uid_iff, A4.
+      * intros u Hu Hu'. apply in_map_iff in Hu' as [x [<- Hx]]. destruct (Ffill x Hx) as (kp & Hk & E).
+        subst front. rewrite map_map in Hu. apply in_map_iff in Hu as [kp' [Eu Hk']].
+        subst chosen rest. apply filter_In in Hk as [Hk Hnf]. apply filter_In in Hk' as [Hk' Hf].
+        assert (kp' = kp).
+        { apply (NoDup_map_inj (fun kp => uid (proj kp)) ks); auto. unfold proj. rewrite Eu.
+          symmetry. apply ind_eqb_uid, E. }
+        subst kp'. rewrite Hf in Hnf. discriminate.
+    + rewrite <- (firstn_skipn n out), app_length, Lh. fold fill. lia.
+  - apply Nat.ltb_ge in E1. destruct (pop_size <? length front) eqn:E2.
+    + apply andb_true_iff in H as [H L]. apply Nat.eqb_eq in L.
+      destruct (subseq_b_spec front out H) as [S1 S2]. destruct (S2 NDf) as [N1 _].
+      split; [|split; [exact N1|exact L]].
+      apply subset_b_iff. intros x Hx. destruct (S1 x Hx) as (y & Hy & E). exists y. split; [apply Fi, Hy|exact E].
+    + apply Nat.ltb_ge in E2. split; [|split].
+      * apply subset_b_iff. intros x Hx. destruct (inds_eqb_In_l _ _ x H Hx) as (y & Hy & E). exists y. split; [apply Fi, Hy|exact E].
+      * rewrite (inds_eqb_uids _ _ H). exact NDf.
+      * pose proof (f_equal (@length nat) (inds_eqb_uids _ _ H)) as L. rewrite !map_length in L. lia.
+Qed.
+
+(* ------------------------------------------------------------------ admits -> the property's clauses *)
+Lemma tour_rounds_perm bt gsize inds tr :
+  NoDup (map uid inds) -> tour_rounds bt gsize inds tr -> exists rest, Permutation (map snd tr ++ rest) inds.
+Proof.
+  intros ND R. induction R as [inds|inds g b tr [rest P] Lg Em R IH].
+  - exists inds. apply Permutation_refl.
+  - assert (Hb : In b inds) by (eapply Permutation_app_incl; [exact P|eapply py_max_In, Em]).
+    pose proof (remove_first_perm b inds ND Hb) as Pb.
+    assert (ND' : NoDup (map uid (remove_first b inds))).
+    { apply (Permutation_map uid) in Pb. apply Permutation_sym in Pb.
+      pose proof (Permutation_NoDup Pb ND) as H. simpl in H. inversion H; assumption. }
+    destruct (IH ND') as [r' P']. exists r'. simpl. eapply perm_trans; [apply perm_skip, P'|exact Pb].
+Qed.
+
+Theorem tour_admits_contract bt gsize inds out :
+  1 <= gsize -> NoDup (map uid inds) -> tour_admits bt gsize inds out = true ->
+  subset_b out inds = true /\ NoDup (map uid out).
+Proof.
+  intros Hg ND H. destruct (tour_admits_sound bt gsize Hg out inds ND H) as (tr & R & E).
+  destruct (tour_rounds_perm bt gsize inds tr ND R) as [rest P]. split.
+  - apply subset_b_iff. intros x Hx. destruct (inds_eqb_In_l _ _ x E Hx) as (y & Hy & Ey).
+    exists y. split; [eapply Permutation_app_incl; eauto|exact Ey].
+  - rewrite (inds_eqb_uids _ _ E). eapply Permutation_app_NoDup_map; eauto.
+Qed.
+
+Definition consistent (l : list ind) : Prop := forall a b, In a l -> In b l -> uid a = uid b -> a = b.
+
+Lemma dedup_In_rev l x : consistent l -> In x l -> In x (dedup l).
+Proof.
+  intros C Hx. assert (Hu : In (uid x) (map uid (dedup l))) by (apply dedup_uids, in_map, Hx).
+  apply in_map_iff in Hu as [y [E Hy]]. rewrite <- (C y x (dedup_In _ _ Hy) Hx E). exact Hy.
+Qed.
+
+Lemma subset_b_trans_incl out a b : subset_b out a = true -> incl a b -> subset_b out b = true.
+Proof.
+  rewrite !subset_b_iff. intros H I x Hx. destruct (H x Hx) as (y & Hy & E). exists y. split; [apply I, Hy|exact E].
+Qed.
+
+Lemma n_distinct_pos l x : In x l -> 1 <= n_distinct l.
+Proof.
+  intros H. unfold n_distinct.
+  assert (In (uid x) (distinct_uids (map uid l))) by (apply distinct_uids_In, in_map, H).
+  destruct (distinct_uids (map uid l)); [contradiction|simpl; lia].
+Qed.
+
+Lemma nondominated_ext dm l l' x : (forall y, In y l <-> In y l') -> nondominated dm l x = nondominated dm l' x.
+Proof.
+  intros H. unfold nondominated.
+  destruct (forallb (fun y => negb (dm y x)) l) eqn:E1, (forallb (fun y => negb (dm y x)) l') eqn:E2; try reflexivity.
+  - rewrite forallb_forall in E1. assert (forallb (fun y => negb (dm y x)) l' = true) by (apply forallb_forall; intros y Hy; apply E1, H, Hy). congruence.
+  - rewrite forallb_forall in E2. assert (forallb (fun y => negb (dm y x)) l = true) by (apply forallb_forall; intros y Hy; apply E2, H, Hy). congruence.
+Qed.
+
+(* whatever the decidable relation admits satisfies the executable clauses of the property
+   (populations in which equal uids mean equal individuals) *)
+Theorem sel_admits_holds t population pop_size out :
+  consistent population -> sel_admits t population pop_size out = true ->
+  sel_holds_b t population pop_size out = true.
+Proof.
+  intros C H. destruct out as [out|]; [|discriminate]. unfold sel_admits in H. unfold sel_holds_b.
+  pose proof (dedup_length population) as L. pose proof (dedup_NoDup population) as ND.
+  pose proof (dedup_In population) as I.
+  set (inds := dedup population) in *. set (d := n_distinct population) in *.
+  assert (Iff : forall y, In y inds <-> In y population) by (intros y; split; [apply I|apply dedup_In_rev, C]).
+  (* the three size/containment clauses and the SPEA-2 clause, established per branch *)
+  assert (Goal : subset_b out population = true /\
+                 (2 <= d -> nodup_uid out = true /\ length out = Nat.min pop_size d) /\
+                 (d = 1 -> length out = pop_size) /\
+                 (t = Spea2 -> forall y, In y population -> nondominated dom population y = true ->
+                    n_distinct (filter (nondominated dom population) population) <= pop_size -> mem_uid y out = true)).
+  { destruct (Nat.eqb (length inds) 1) eqn:E1.
+    - apply Nat.eqb_eq in E1. destruct inds as [|x [|z r]] eqn:Ei; simpl in E1; try lia.
+      rewrite list_times_single in H. assert (Hx : In x population) by (apply I; left; reflexivity).
+      pose proof (f_equal (@length nat) (inds_eqb_uids _ _ H)) as Lo. rewrite !map_length, repeat_length in Lo.
+      split; [|split; [|split]].
+      + apply subset_b_iff. intros y Hy. destruct (inds_eqb_In_l _ _ y H Hy) as (w & Hw & E).
+        apply repeat_spec in Hw. subst w. exists x. auto.
+      + simpl in L. lia.
+      + intros _. exact Lo.
+      + intros _ y Hy Hnd Hc.
+        assert (1 <= pop_size).
+        { eapply Nat.le_trans; [|exact Hc]. apply (n_distinct_pos _ y). apply filter_In. auto. }
+        destruct out as [|o0 out]; [simpl in Lo; lia|].
+        unfold inds_eqb in H. destruct pop_size; [lia|]. simpl in H. apply andb_true_iff in H as [H _].
+        apply Iff in Hy. destruct Hy as [<-|[]]. apply (mem_uid_of_eqb _ o0); [left; reflexivity|exact H].
+    - apply Nat.eqb_neq in E1. destruct (length inds <=? pop_size) eqn:E2.
+      + apply Nat.leb_le in E2. pose proof (inds_eqb_uids _ _ H) as U.
+        pose proof (f_equal (@length nat) U) as Lo. rewrite !map_length in Lo.
+        split; [|split; [|split]].
+        * apply subset_b_iff. intros y Hy. destruct (inds_eqb_In_l _ _ y H Hy) as (w & Hw & E). exists w. split; [apply I, Hw|exact E].
+        * intros _. split; [apply nodup_uid_iff; rewrite U; exact ND|lia].
+        * lia.
+        * intros _ y Hy _ _. apply mem_uid_iff. rewrite U. apply in_map, Iff, Hy.
+      + apply Nat.leb_gt in E2. destruct t.
+        * apply andb_true_iff in H as [Lo H]. apply Nat.eqb_eq in Lo.
+          assert (Hg : 1 <= group_size (length inds)) by (apply group_size_pos; lia).
+          destruct (tour_admits_contract better _ inds out Hg ND H) as [S N].
+          split; [eapply subset_b_trans_incl; [exact S|intros y; apply I]|]. split; [|split].
+          -- intros _. split; [apply nodup_uid_iff, N|lia].
+          -- lia.
+          -- discriminate.
+        * destruct (spea2_admits_contract dom inds pop_size out ND H) as (S & N & Lo).
+          split; [eapply subset_b_trans_incl; [exact S|intros y; apply I]|]. split; [|split].
+          -- intros _. split; [apply nodup_uid_iff, N|lia].
+          -- lia.
+          -- intros _ y Hy Hnd Hc.
+             apply (spea2_admits_keeps_front dom inds pop_size out y dom_asym H); [|apply Iff, Hy|].
+             ++ eapply Nat.le_trans; [|exact Hc]. unfold n_distinct.
+                rewrite <- (map_length uid (filter _ inds)).
+                apply NoDup_incl_length; [apply filter_NoDup_map, ND|].
+                intros u Hu. apply distinct_uids_In. apply in_map_iff in Hu as [z [<- Hz]].
+                apply filter_In in Hz as [Hz Hn]. apply in_map, filter_In. split; [apply Iff, Hz|].
+                rewrite <- (nondominated_ext dom inds population z Iff). exact Hn.
+             ++ rewrite (nondominated_ext dom inds population y Iff). exact Hnd. }
+  destruct Goal as (G1 & G2 & G3 & G4). rewrite G1. cbn [andb].
+  assert (A : implb (2 <=? d) (nodup_uid out && Nat.eqb (length out) (Nat.min pop_size d)) = true).
+  { unfold implb. destruct (2 <=? d) eqn:D; [|reflexivity]. apply Nat.leb_le in D. destruct (G2 D) as [N Lo].
+    rewrite N, Lo, Nat.eqb_refl. reflexivity. }
+  assert (B : implb (Nat.eqb d 1) (Nat.eqb (length out) pop_size) = true).
+  { unfold implb. destruct (Nat.eqb d 1) eqn:D; [|reflexivity]. apply Nat.eqb_eq in D. rewrite (G3 D), Nat.eqb_refl. reflexivity. }
+  rewrite A, B. cbn [andb]. destruct t; [reflexivity|]. unfold implb.
+  destruct (n_distinct (filter (nondominated dom population) population) <=? pop_size) eqn:D; [|reflexivity].
+  apply Nat.leb_le in D. cbn [negb orb]. apply forallb_forall. intros y Hy. apply filter_In in Hy as [Hy Hn].
+  apply G4; auto.
 Qed.
